@@ -218,6 +218,36 @@ theorem C10_shared_copy_counterexample :
     view (writerRun (fun c => c + 10) 3 [0, 1, 2] [1] [⟨1, 99⟩] 1) [0, 1, 2] ≠ view (fun c => c + 10) [0, 1, 2] := by
   decide
 
+/-- **… component by component.**  In particular the variables nested inside compressed
+arrays (list, count, index, tie point index, interpolation parameter variables), node count /
+part node count / interior ring variables, bounds and metadata constructs of the caller's
+field keep their netCDF names, properties and data. -/
+theorem C10_inputs_unchanged_parts (h : Heap) (next : Nat) (o : Obj) (hwf : ∀ c ∈ o, c < next)
+    (prog : List Mut) (k : Nat) (p : Part) :
+    partView (writerRun h next o [] prog k) o p = partView h o p := by
+  unfold partView
+  cases hc : o[p.pos]? with
+  | none => rfl
+  | some c =>
+    simp only [Option.map_some]
+    rw [writerRun_old h next o prog k c (hwf c (List.mem_of_getElem? hc))]
+
+example : (∀ c ∈ List.range 16, c < 16) ∧ Part.all.length = 16 ∧
+    partView (writerRun (fun c => c + 10) 16 (List.range 16) [] [renameListVariable 99, reshapeData 98] 2)
+      (List.range 16) .listVar = some 13 := by decide
+
+/-- **The list variable shared between a gathered array and its copies** (what
+`GatheredArray.__init__` storing the list variable with `copy=False` would do): the writer's
+`nc_set_variable(list_variable, ncvar)` then lands on the caller's object — and on nothing
+else of it, which is why only a fingerprint that looks inside the compressed array sees it. -/
+theorem C10_shared_list_variable_counterexample :
+    let h : Heap := fun c => c + 10
+    let o : Obj := List.range 16
+    let h' := writerRun h 16 o [Part.listVar.pos] [renameListVariable 99] 1
+    partView h' o .listVar = some 99 ∧ partView h o .listVar = some 13 ∧
+      ∀ p ∈ Part.all, p ≠ .listVar → partView h' o p = partView h o p := by
+  decide
+
 /-! ## 5. The code as it stands -/
 
 /-- **Unpatched guard, what does hold.**  The full statement (`C10_guard_sound` with `.old`)
